@@ -52,9 +52,17 @@ class History:
         r = self.r
         files = [os.path.relpath(os.path.join(dp, f), self.root) for dp, dn, fn in os.walk(self.root) if ".git" not in dp for f in fn]
         k = r.random()
-        if k < 0.5 or not files:
+        if k < 0.45 or not files:
             for _ in range(r.randint(1, 4)):
                 self.write(self.path(), executable=(r.random() < 0.15))
+        elif k < 0.62:
+            # a byte-identical copy of an existing file under another name (same blob id)
+            wanted = [f for f in files if f.startswith(self.d + "/") and f.endswith("." + self.x)]
+            src = r.choice(wanted or files)
+            dst = ("%s/copy%d.%s" % (self.d, self.next_id, self.x)) if r.random() < 0.7 else self.path()
+            if not os.path.exists(os.path.join(self.root, dst)):
+                os.makedirs(os.path.dirname(os.path.join(self.root, dst)) or self.root, exist_ok=True)
+                shutil.copyfile(os.path.join(self.root, src), os.path.join(self.root, dst))
         elif k < 0.65:
             self.write(r.choice(files))                       # change
         elif k < 0.8:
@@ -90,6 +98,15 @@ class History:
                 self.refs[b] = self.commits[-1]
                 git(["checkout", "-q", "main"], self.root)
         self.refs["main"] = git(["rev-parse", "main"], self.root).strip()
+        # a branch whose NAME looks like the abbreviated id of another commit: selecting that
+        # commit by its abbreviated id must still load that commit
+        self.shadow = None
+        if len(self.commits) >= 2:
+            c1, c2 = r.sample(self.commits, 2)
+            if c1 != c2:
+                abbr = c1[:r.choice([7, 8, 10])]
+                if git(["branch", abbr, c2], self.root, check=False) is not None:
+                    self.shadow = (abbr, c1)
         # dirty working tree and index: must not matter
         self.write(self.d + "/dirty." + self.x)
         self.write(self.d + "/staged." + self.x)
@@ -140,6 +157,8 @@ def main(run):
             h.build(run.rng.randint(3, 7) if quick else run.rng.randint(4, 12))
             cfg_dir = h.d
             sels = [("commit", c) for c in h.commits] + [("ref", n) for n in h.refs] + [("commit", h.commits[-1][:10])]
+            if h.shadow:
+                sels.append(("commit", h.shadow[0]))
             for kind, val in sels:
                 sha = val if kind == "commit" and len(val) == 40 else (h.refs.get(val) or [c for c in h.commits if c.startswith(val)][0])
                 co = os.path.join(root, "h%d" % hi, "co-%s" % sha[:12])
